@@ -83,6 +83,7 @@ import Nexus.L2.Proofs.DealerExamples
 import Nexus.L2.Proofs.DealerRealmRpc
 import Nexus.L2.Proofs.DealerOrder
 import Nexus.L2.Proofs.RealmAuthz
+import Nexus.L2.Proofs.RealmKeys
 
 namespace Nexus.C02
 open Nexus.L2 Nexus.Gen.N Nexus
@@ -555,6 +556,35 @@ theorem C02_realm_timeout (r : Realm) (h : DealerInv r.ds) (fuel target : Nat) (
   · simp only [Realm.advance, hn]
     rfl
   · exact Realm.timerDue_queueOf ({ r with now := max r.now t.deadline } : Realm) h t hv hvc hcan hcm hc
+
+/-- `C02_realm_callee_gone` and `C02_realm_timeout` in every REACHABLE realm (any history of inputs): the dealer
+    invariant holds, and the caller — an attached client — does not carry the meta session's key
+    (`Realm.Reachable.find?_ne_meta`: `join` under that key is a no-op of the model), so the two side conditions
+    `DealerInv r.ds` and `… ≠ metaKey` are discharged. -/
+theorem C02_realm_callee_gone_reachable {cfg : Config} {r : Realm} (hr : Realm.Reachable cfg r) {k : SessKey} {s : Session}
+    (mode : LeaveMode) (hfind : r.clients.find? (fun c => c.key == k) = some s) (hmode : mode.isShutdown = false)
+    {v : Invk} (hv : v ∈ r.ds.d.invs) (hk : v.callee = k) {c : Session}
+    (hc : r.clients.find? (fun c => c.key == v.callId.sess) = some c)
+    (hroom : (Realm.leaveSend r k mode).queueLen v.callId.sess +
+      (Realm.dmsgsTo v.callId.sess (syncRemoveSession (Realm.leaveSend r k mode).denv r.ds k).sends).length ≤ c.cap) :
+    ∃ app, (r.leave k mode).dqueueOf v.callId.sess = (Realm.leaveSend r k mode).dqueueOf v.callId.sess ++ app ∧
+      Realm.qReplies v.callId.req app = [.error tCALL v.callId.req [] ErrCanceled [.str "<text>"] []] ∧
+      v.callId ∉ (syncRemoveSession (Realm.leaveSend r k mode).denv r.ds k).st.d.calls :=
+  C02_realm_callee_gone r hr.inv.1.dinv mode hfind hmode hv hk (hr.find?_ne_meta hc) hc hroom
+
+theorem C02_realm_timeout_reachable {cfg : Config} {r : Realm} (hr : Realm.Reachable cfg r) (fuel target : Nat) (t : Timer)
+    (hn : Realm.nextDue r target = some (.timer t)) {v : Invk} (hv : v ∈ r.ds.d.invs)
+    (hvc : v.callId = ⟨t.caller, t.req⟩) (hcan : v.canceled = false) {c : Session}
+    (hc : r.clients.find? (fun c => c.key == t.caller) = some c) :
+    t.deadline ≤ target ∧
+    Realm.advance (fuel + 1) r target =
+      Realm.advance fuel (Realm.drain Realm.taskFuel
+        (({ r with now := max r.now t.deadline } : Realm).timerDue t)) target ∧
+    ∃ app, (({ r with now := max r.now t.deadline } : Realm).timerDue t).dqueueOf t.caller =
+        r.dqueueOf t.caller ++ app.take (c.cap - r.queueLen t.caller) ∧
+      Realm.qReplies t.req app = [.error tCALL t.req [] ErrTimeout [.str "<text>"] []] ∧ app.length ≤ 2 ∧
+      (⟨t.caller, t.req⟩ : ReqId) ∉ (({ r with now := max r.now t.deadline } : Realm).timerDue t).ds.d.calls :=
+  C02_realm_timeout r hr.inv.1.dinv fuel target t hn hv hvc hcan (hr.find?_ne_meta hc) hc
 
 /-- … and never earlier: in a tick to a time before its deadline a timer does not fire. -/
 theorem C02_realm_timeout_not_before {target : Nat} {r r' : Realm} {evs : List (Realm × Realm.Due)}
